@@ -241,7 +241,8 @@ EXTENSIONS = {
     "run (engines that draw random numbers), and a checkpoint once published never disappears later in the same history.",
     "C12": " Also: (a') the same driver object initialised for another equally padded batch first; (d) the real "
     "SurfaceHoppingDynamics object with a damping time and real CIS electronic structure: one-hot identification of the thermostat "
-    "it applies, its n_dof against that thermostat's stationary state, two noise draws per real integrator step.",
+    "it applies, its n_dof against that thermostat's stationary state, two noise draws per real integrator step; (r) a thermostatted run interrupted after a checkpoint and finished by run_from_checkpoint is "
+    "still thermostatted with the original damping time.",
     "C13": " Also: seeding of the thermostat noise when velocities are supplied by the user.",
     "C14": " Also: calls mixing ground- and excited-state rows, and the charges published by the XL path after a move.",
     "C15": " The job pool also contains learned-parameter lists, a job refused inside the SCF loop, the same method/elements with "
